@@ -99,16 +99,19 @@ class ElectronicState(UnitsManaged):
                 raise Exception()  
             k = 0
             for nn in self.vibmodes:
-                en += vsig[k]*self.convert_energy_2_current_u(nn.omega)
+                en += vsig[k]*nn.omega
                 k += 1
 
         k = 0
         for nn in self.elsignature:
-            en += \
-            self.convert_energy_2_current_u(
-                    self.aggregate.monomers[k].elenergies[nn])
+            en += self.aggregate.monomers[k].elenergies[nn]
             k += 1
             
+        # the sum is taken in internal units and converted once (current
+        # units need not be proportional to energy, e.g. nm); zero stays zero
+        if en != 0.0:
+            en = self.convert_energy_2_current_u(en)
+
         return en
     
         
@@ -126,8 +129,12 @@ class ElectronicState(UnitsManaged):
            
             k = 0
             for nn in self.vibmodes:
-                en += vsig[k]*self.convert_energy_2_current_u(nn.omega)
+                en += vsig[k]*nn.omega
                 k += 1
+
+            # summed in internal units and converted once; zero stays zero
+            if en != 0.0:
+                en = self.convert_energy_2_current_u(en)
             
         return en
         
@@ -393,8 +400,12 @@ class VibronicState(UnitsManaged):
            
             k = 0
             for nn in self.elstate.vibmodes:
-                en += self.vsig[k]*self.convert_energy_2_current_u(nn.omega)
+                en += self.vsig[k]*nn.omega
                 k += 1
+
+            # summed in internal units and converted once; zero stays zero
+            if en != 0.0:
+                en = self.convert_energy_2_current_u(en)
             
         return en        
 
